@@ -199,12 +199,28 @@ Proof.
 Qed.
 
 (* ---- failures_are_internal_no_wait ---- *)
-Lemma failures_are_internal_no_wait_pf : forall ncb k T arr,
-  k <> FNone ->
+Lemma failures_are_internal_no_wait_pf : forall ncb k e T arr,
+  fail_err k = Some e ->
   let r := send ncb k T arr in
-  r_out r = OInternal k /\ r_time r = 0 /\ r_cbs r = [] /\ r_taken r = 0%nat /\ r_published r = false.
+  r_out r = OInternal k /\
+  res_error (r_out r) = Some (code_internal, prefix_internal ++ err_string e) /\
+  r_time r = 0 /\ r_cbs r = [] /\ r_taken r = 0%nat /\ r_published r = false.
 Proof.
-  intros ncb k T arr Hk. destruct k; [contradiction | | |]; cbn; repeat split.
+  intros ncb k e T arr Hk. destruct k; cbn in Hk; [discriminate | | |]; inversion Hk; subst;
+    cbn; repeat split.
+Qed.
+
+(* whatever the failing step's error is - a *res.Error with its own code included - the code
+   reported is system.internalError and the message is the error's text behind the prefix *)
+Lemma failure_keeps_no_code_pf : forall ncb k T arr code msg,
+  k <> FNone ->
+  res_error (r_out (send ncb k T arr)) = Some (code, msg) ->
+  code = code_internal /\ code <> code_timeout /\
+  exists e, fail_err k = Some e /\ msg = prefix_internal ++ err_string e.
+Proof.
+  intros ncb k T arr code msg Hk H.
+  destruct k; [contradiction | | |]; cbn in H; inversion H; subst;
+    (split; [reflexivity |]); (split; [discriminate |]); eexists; split; reflexivity.
 Qed.
 
 Lemma internal_only_on_failure_pf : forall ncb k T arr k',
@@ -217,12 +233,35 @@ Proof.
   - cbn in H. inversion H. split; [reflexivity | discriminate].
 Qed.
 
+(* the timeout code is reported only by the timer, never by a failing step (not even one
+   failing with res.ErrTimeout itself) *)
+Lemma timeout_code_only_from_timer_pf : forall ncb k T arr msg,
+  res_error (r_out (send ncb k T arr)) = Some (code_timeout, msg) ->
+  k = FNone /\ r_out (send ncb k T arr) = OTimeout.
+Proof.
+  intros ncb k T arr msg H. destruct k.
+  - split; [reflexivity |]. destruct (r_out (send ncb FNone T arr)) as [p | | k'] eqn:E.
+    + cbn in H. discriminate.
+    + reflexivity.
+    + exfalso. eapply no_failure_no_internal_pf. exact E.
+  - cbn in H. discriminate.
+  - cbn in H. discriminate.
+  - cbn in H. discriminate.
+Qed.
+
 (* ---- unsubscribed_on_every_path ---- *)
 Lemma unsubscribed_on_every_path_pf : forall ncb k T arr,
   let r := send ncb k T arr in
   r_released r = r_subscribed r /\
-  (r_subscribed r = true <-> k <> FMarshal /\ k <> FSubscribe).
+  (r_subscribed r = true <-> (forall e, k <> FMarshal e) /\ (forall e, k <> FSubscribe e)).
 Proof.
-  intros ncb k T arr. destruct k; cbn; (split; [reflexivity |]); split;
-    try (intros _; split; discriminate); try discriminate; intros [H1 H2]; congruence.
+  intros ncb k T arr. destruct k as [| e | e | e]; cbn; (split; [reflexivity |]); split.
+  - intros _. split; intros e; discriminate.
+  - reflexivity.
+  - discriminate.
+  - intros [H _]. exfalso. exact (H e eq_refl).
+  - discriminate.
+  - intros [_ H]. exfalso. exact (H e eq_refl).
+  - intros _. split; intros e'; discriminate.
+  - reflexivity.
 Qed.
